@@ -347,7 +347,7 @@ def osfsEngine : List String → String
     | _, _ => "bad-op"
   | [tr, "resolvelink", tg, st] => match parseTree_ tr, fromHex tg, fromHex st with
     | some t, some tg, some st => match mustRel st with
-      | some sp => if sp.goesUp then "err fs-breakout" else showResolved (resolveLink t (numLinks t + 2) tg sp []).1
+      | some sp => showResolved (resolveLinkTop t tg sp)
       | none => "panic"
     | _, _, _ => "bad-op"
   | _ => "bad-op"
